@@ -310,7 +310,7 @@ class PatternConstraintComponent(StringBasedConstraintBase):
                 re_pattern = str(p)
             try:
                 re_matcher = re.compile(re_pattern, re_flags)
-            except re.error as e:
+            except (re.error, OverflowError, RecursionError) as e:
                 raise ConstraintLoadError(
                     "PatternConstraintComponent sh:pattern is not a valid regular expression: {}".format(e),
                     "https://www.w3.org/TR/shacl/#PatternConstraintComponent",
